@@ -46,7 +46,7 @@ pub fn batches(prop: &str, tier: &str) -> Vec<(&'static str, u64)> {
         "C01" | "C02" | "C04" | "C07" => vec![("fault-free", t(120_000)), ("faults", t(80_000))],
         "C03" => vec![("fault-free", t(160_000)), ("user-faults", t(40_000))],
         "C10" => vec![("fine", t(100_000))],
-        "C20" => vec![("fault-free", t(150_000)), ("faults", t(250_000))],
+        "C20" => vec![("wiring", 1), ("fault-free", t(150_000)), ("faults", t(250_000))],
         "C11" => vec![("crash", t(64_000)), ("caught-user-panics", t(100_000))],
         "C18" => vec![("permute", t(60_000)), ("reroute", t(40_000)), ("two-mocks", t(40_000)), ("relabel", t(40_000)), ("mixed", t(40_000))],
         "C16" => vec![("fault-free", t(120_000)), ("faults", t(40_000)), ("executor", t(60_000))],
